@@ -145,3 +145,15 @@ def run(ctx):
     shared.recursion_audit(ctx, '7', ['db::IndexedChangeSet', 'column::HashColumn::prepare', 'column::HashColumn::claim', 'multitree::'])
     shared.no_fixed_slice_of_client_key(ctx, '7', ['db::IndexedChangeSet', 'db::DbInner', 'column::HashColumn'])
     shared.tree_lock_decision(ctx, '8')
+    # 9. inside one commit the keyed changes of a column set (Set / Reference / Dereference of root keys) are planned before its node
+    # changes: the removal of a tree decides "last reference gone" from the root's count as the record under construction shows it,
+    # so a ReferenceTree of the same commit has to be in that record already
+    wp = ctx.body('db::IndexedChangeSet::write_plan')
+    if wp:
+        lk = lib.for_loops_over(wp, '.IndexedChangeSet.changes')
+        ln = lib.for_loops_over(wp, '.IndexedChangeSet.node_changes')
+        ctx.ob('9a0 plan-loops', 'anchor', wp.path, 'write_plan walks the keyed changes and the node changes of the set', len(lk) >= 1 and len(ln) >= 1, 'keyed %s node %s' % ([l['head'] for l in lk], [l['head'] for l in ln]))
+        if lk and ln:
+            lib.precedes(ctx, '9a keyed-changes-planned-before-node-changes', wp, [l['none'] for l in lk], [l['head'] for l in ln],
+                         'the loop over the node changes starts only after the loop over the keyed changes has finished')
+
